@@ -15,17 +15,17 @@ REPLAYS = os.path.join(VERIF, "replays")
 PROPERTY_UNITS = {
     "C06": ["V1_runtime", "V2_basic"],
     "C07": ["V1_runtime", "K1_numbers", "V2_basic"],
-    "C08": ["V1_runtime"],
+    "C08": ["V1_runtime", "R_refuter"],
     "C09": ["K1_numbers", "V1_runtime"],
-    "C10": ["V1_runtime"],
-    "C11": ["K1_numbers", "V1_runtime"],
-    "C12": ["K1_numbers", "V1_runtime"],
+    "C10": ["V1_runtime", "R_refuter"],
+    "C11": ["K1_numbers", "V1_runtime", "R_refuter"],
+    "C12": ["K1_numbers", "V1_runtime", "R_refuter"],
     "C15": ["V2_basic"],
-    "C16": ["V1_runtime", "V2_basic"],
+    "C16": ["V1_runtime", "V2_basic", "R_refuter"],
     "C17": ["V1_runtime"],
 }
 VERUS_UNITS = {"V1_runtime", "V2_basic"}
-KANI_UNITS = {"K1_numbers", "K2_runtime"}
+KANI_UNITS = {"K1_numbers", "R_refuter"}
 
 
 def repo_root():
